@@ -109,7 +109,7 @@ func forceGroups(t *rapid.T, ty *desc.T) {
 	for i, f := range ty.Fields {
 		scalar := f.T.Elem == nil && f.T.K != "struct" && f.T.K != "time"
 		ptrScalar := f.T.K == "ptr" && f.T.Elem.Elem == nil && f.T.Elem.K != "struct" && f.T.Elem.K != "time" && f.T.Elem.K != "named"
-		if (scalar || ptrScalar) && f.Name[0] >= 'A' && f.Name[0] <= 'Z' {
+		if (scalar || ptrScalar) && desc.Exported(f.Name) {
 			scal = append(scal, i)
 		}
 	}
